@@ -118,7 +118,7 @@ theorem SameView.reads (c : Cfg) {s s' : Engine} (h : SameView s s') :
   · funext e k; unfold Engine.edgeProp; rw [h.runs, h.root, h.store]
   · funext e; unfold Engine.edgeProps; rw [h.runs, h.root, h.store]
   · funext x; unfold Engine.lookupInternal; rw [h.idmap]
-  · unfold Engine.vecNodes; rw [h.vecs]
+  · unfold Engine.vecNodes; rw [h.vecs, h.runs]
 
 theorem filterMap_congr' {α β} (f g : α → Option β) (l : List α) (h : ∀ a ∈ l, f a = g a) :
     l.filterMap f = l.filterMap g := by
